@@ -18,10 +18,11 @@ def mkPredefinedCrcFun(name):
     width, poly, init, xorout = _DEFS[name.lower()]
 
     def fun(data, crc=None):
-        if type(data) not in (bytes, bytearray, memoryview):
+        try:
             from vf import symcrc
-            return symcrc.crc(data, name.lower(), width, poly, init, xorout)
-        return crc_concrete(data, width, poly, init, xorout)
+        except ImportError:
+            return crc_concrete(data, width, poly, init, xorout)
+        return symcrc.crc(data, name.lower(), width, poly, init, xorout)
     fun.crc_name = name.lower()
     return fun
 
